@@ -79,7 +79,7 @@ def doRun (a : Json) : Except String Json := do
   let out := serve token raw auth az upgrade
   let exp := expectedFor raw auth az
   let modelUpstream : List Headers := match out with
-    | .forwarded recv _ => [identityPart recv]
+    | .forwarded recv _ => [recv]
     | _ => []
   let (recvJ, ctxJ) := match out with
     | .forwarded recv u => (encodeHeaders (identityPart recv), encodeIdentity u)
